@@ -3,7 +3,8 @@ LEVEL = "proof"
 LEAN_MODULES = ["CifModel.Props.C07"]
 REQUIRED = ["CifModel.C07_serialize_roundtrip", "CifModel.C07_serialize_buffer", "CifModel.C07_buf_write_terminates",
             "CifModel.C07_buf_write_ok", "CifModel.C07_default_cap_ok", "CifModel.C07_columns_roundtrip",
-            "CifModel.C07_schema_link", "CifModel.C07_numb_in_list_partial", "CifModel.C07_numb_list_roundtrip",
+            "CifModel.C07_schema_link", "CifModel.C07_numb_in_list", "CifModel.C07_numb_produced_consistent",
+            "CifModel.C07_constructible_roundtrip", "CifModel.C07_numb_in_list_partial", "CifModel.C07_numb_list_roundtrip",
             "CifModel.C07_cex_buf_write_pinned", "CifModel.C07_cex_buf_write_cap1", "CifModel.C07_cex_empty_digits"]
 GEN = ["ErrCodes", "ValueCols"]
 FAMILIES = ["ser", "storeval"]
@@ -26,9 +27,6 @@ ASSUMPTIONS = [
     "routes is exercised end to end by family storeval",
 ]
 PARTIAL = [
-    "C07_numb_in_list: proved for numbers produced by cif_value_parse_numb / the char->numb coercion "
-    "(C07_numb_in_list_partial); for numbers built by cif_value_init_numb / autoinit_numb the statement "
-    "C07_numb_in_list_full needs group gB's C10_init_text_roundtrip (formatting then parsing returns the fields)",
     "independence of the stored copy from the caller's object: immediate in the model (values are immutable); at the C level "
     "observed by family storeval (the object is changed and released before reading back) under ASan",
 ]
@@ -37,7 +35,7 @@ LEVEL_TEXT = ("Proof about an executable Lean model of the serialiser/deserialis
               "run): round trip for every value at any depth and size, termination and in-bounds writes of the buffer, column round "
               "trip. Tied to the C by differential execution: family ser (real serialise -> free -> deserialise, direct calls of "
               "cif_buf_write) and family storeval (five storing routes x three read-back paths through SQLite).")
-LEVEL_NOTE = ("Partial in one named place: numbers created by cif_value_init_numb inside lists/tables rely on group gB's "
-              "format/parse round trip (C07_numb_in_list_full is stated, the parse_numb half is proved). Trusted: word-level buffer "
+LEVEL_NOTE = ("C07_numb_in_list is proved at full strength (numbers from parse_numb, init_numb, autoinit_numb, create/init, via group "
+              "gB's initNumb_roundtrip). Trusted: word-level buffer "
               "abstraction, translator extension, SQLite's faithful storage of bound values, executors/oracles.")
 TECHNIQUE = "Lean 4 proof (mutual structural induction with cost-bounded fuel; invariant of the write buffer) + differential execution"
